@@ -7,9 +7,10 @@ MODULE = "Feox.Props.C20"
 THEOREMS = ['Feox.C20.inflight_never_freed', 'Feox.C20.held_is_leaked', 'Feox.C20.unheld_is_released',
             'Feox.C20.mark_complete_counts_once', 'Feox.C20.bit_is_last_mark', 'Feox.C20.extent_pin_guard_balanced',
             'Feox.Conc.InFlight.good_step', 'Feox.Conc.InFlight.good_run',
-            'Feox.C20.tree_slot_no_use_after_free', 'Feox.C20.tree_slot_load_tied_to_guard', 'Feox.C20.immediate_destruction_is_unsafe', 'Feox.Conc.Epoch.step_inv']
+            'Feox.C20.tree_slot_no_use_after_free', 'Feox.C20.tree_slot_load_tied_to_guard', 'Feox.C20.immediate_destruction_is_unsafe', 'Feox.Conc.Epoch.step_inv', 'Feox.C20.unsafe_sites_audited']
 
 ASSUME = [
+    "tools/gen_unsafe.py (translator, regenerated on this run) lists the functions of src/ that contain `unsafe` blocks, the `unsafe fn`s and the `unsafe impl`s; Feox.C20.unsafe_sites_audited compares the list with the audited inventory (a new site, or more blocks in a site, breaks it; edits inside an audited block are not looked at)",
     "machine-level memory safety of the compiled unsafe blocks (AlignedBuffer, io_uring submission, the crossbeam-epoch library itself) is outside the Lean model: the theorems cover the ownership protocols those blocks rely on",
     "tools/gen_epoch.py (translator, regenerated on this run) reads the guard and the disposal of the replaced object in TreeSlot::store and the lifetime signature of TreeSlot::load; crossbeam-epoch's guarantee (an object handed to defer_destroy under a pinned guard is destroyed only after every guard pinned at that moment is dropped or repinned) and the borrow checker's enforcement of the 'g lifetime are taken as given",
     "AddressSanitizer (std not instrumented) is a search tool over the schedules, races, fault plans and crash workloads of the other engines; a clean run is not a proof",
@@ -34,7 +35,7 @@ def asan_runs(ctx, quick):
         seed = str(ctx.seed * 1000 + 500 + i)
         if i % 2 == 0:
             jobs.append((d, [asan_bin("conc"), "--seed", seed, "--out", d, "cases=%d" % (60 if quick else 1500), "words=20", "races=%d" % (4 if quick else 60), "inflight=%d" % (50 if quick else 2000),
-                             "scans=%d" % (10 if quick else 200), "scanrace=%d" % (6 if quick else 80), "contend=%d" % (2 if quick else 30)]))
+                             "scans=%d" % (10 if quick else 200), "scanrace=%d" % (6 if quick else 80), "contend=%d" % (2 if quick else 30), "readflush=%d" % (3 if quick else 80)]))
         else:
             jobs.append((d, [asan_bin("proto"), "--seed", seed, "--out", d, "crash", "fault", "partition", "writebehind", "workloads=%d" % (2 if quick else 12), "budget=%d" % (6 if quick else 30),
                              "faults=1", "partitions=%d" % (2 if quick else 12), "wb=1", "lean=0"]))
@@ -61,8 +62,13 @@ def run(ctx):
     if r.returncode != 0:
         violation(ctx, "the reclamation translator could not read TreeSlot: " + ((r.stdout or "") + (r.stderr or ""))[-400:],
                   "# translator tools/gen_epoch.py failed; theorem Feox.C20.tree_slot_no_use_after_free cannot be re-checked\n" + (r.stdout or "") + (r.stderr or ""), no_input=True, tag="epoch")
+    r = sh(["python3", os.path.join(VERIF, "tools", "gen_unsafe.py")])
+    ctx.log(r.stdout.strip() or r.stderr.strip())
+    if r.returncode != 0:
+        violation(ctx, "the unsafe-inventory translator failed: " + ((r.stdout or "") + (r.stderr or ""))[-400:],
+                  "# translator tools/gen_unsafe.py failed; theorem Feox.C20.unsafe_sites_audited cannot be re-checked\n" + (r.stdout or "") + (r.stderr or ""), no_input=True, tag="unsafe")
     quick = ctx.tier == "quick"
-    extra = ('cases=0', 'inflight=%d' % (400 if quick else 20000), 'scanrace=%d' % (4 if quick else 100))
+    extra = ('cases=0', 'inflight=%d' % (400 if quick else 20000), 'scanrace=%d' % (4 if quick else 100), 'readflush=%d' % (3 if quick else 100))
     def hook(ctx2, cov):
         pass
     # the in-flight differential goes through the shared runner; asan on top
